@@ -131,8 +131,100 @@ func (w *mgrWorld) snapshot() string {
 	return fmt.Sprintf("%s/%d/%s/%d/%d", ae.Endpoint, int64(ae.Interval/time.Second), b2s(ae.Testing), ae.Errs, age)
 }
 
+// mode hang: probes that only end with their context (a black-holed endpoint). Every endpoint must get its own
+// probe timeout: the candidates after a hanging one are still probed and the first healthy one is elected.
+func managerHang(c *common) error {
+	type scen struct {
+		provs  []string
+		health map[int]string
+	}
+	scens := []scen{
+		{[]string{"e1,2"}, map[int]string{1: "hang", 2: "ok"}},
+		{[]string{"e1,2,3"}, map[int]string{1: "hang", 2: "fail", 3: "ok"}},
+		{[]string{"e1", "e2"}, map[int]string{1: "hang", 2: "ok"}},
+		{[]string{"e1,2"}, map[int]string{1: "ok", 2: "hang"}},
+		{[]string{"e1", "e2,3"}, map[int]string{1: "fail", 2: "hang", 3: "ok"}},
+		{[]string{"e1,2"}, map[int]string{1: "hang", 2: "hang"}},
+	}
+	r := newRng(c.seed ^ 0x9a)
+	for len(scens) < c.n {
+		k := r.rng(2, 4)
+		h := map[int]string{}
+		var ids []string
+		for id := 1; id <= k; id++ {
+			ids = append(ids, itoa(id))
+			h[id] = []string{"ok", "fail", "hang"}[r.intn(3)]
+		}
+		h[r.rng(1, k-1)] = "hang"
+		cut := r.rng(1, k)
+		provs := []string{"e" + strings.Join(ids[:cut], ",")}
+		if cut < k {
+			provs = append(provs, "e"+strings.Join(ids[cut:], ","))
+		}
+		scens = append(scens, scen{provs, h})
+	}
+	if c.n < len(scens) {
+		scens = scens[:c.n]
+	}
+	out := make([]string, len(scens))
+	var wg sync.WaitGroup
+	for i, sc := range scens {
+		wg.Add(1)
+		go func(i int, sc scen) {
+			defer wg.Done()
+			m := &endpoint.Manager{
+				EndpointTester: func(e endpoint.Endpoint) endpoint.Tester {
+					return func(ctx context.Context, d string) error {
+						if err := ctx.Err(); err != nil {
+							return err // like any network call with an expired context
+						}
+						switch sc.health[e.(*fakeEP).id] {
+						case "ok":
+							return nil
+						case "hang":
+							<-ctx.Done()
+							return ctx.Err()
+						}
+						return errPlain
+					}
+				},
+			}
+			for _, p := range sc.provs {
+				var eps []endpoint.Endpoint
+				for _, t := range strings.Split(p[1:], ",") {
+					var id int
+					fmt.Sscanf(t, "%d", &id)
+					eps = append(eps, &fakeEP{id})
+				}
+				m.Providers = append(m.Providers, endpoint.StaticProvider(eps))
+			}
+			start := time.Now()
+			err := m.Test(context.Background())
+			ae, present, _ := m.VerifActive()
+			got := "none"
+			if present {
+				got = ae.Endpoint
+			}
+			var ht []string
+			for id := 1; id <= len(sc.health); id++ {
+				ht = append(ht, fmt.Sprintf("%d=%s", id, sc.health[id]))
+			}
+			out[i] = strings.Join([]string{"mgrhang", itoa(i), strings.Join(sc.provs, "|"), strings.Join(ht, ","), "=>", got, b2s(err == nil),
+				fmt.Sprint(time.Since(start).Milliseconds())}, " ")
+		}(i, sc)
+	}
+	wg.Wait()
+	for _, l := range out {
+		fmt.Println(l)
+	}
+	return nil
+}
+
 func managerEngine(args []string) error {
 	c := parseCommon("manager", args)
+	if c.mode == "hang" {
+		return managerHang(c)
+	}
 	if c.mode != "one" {
 		// parent: one child process per script, so that a crash (panic in a background
 		// goroutine of the manager) is attributed to the script that caused it
